@@ -321,10 +321,13 @@ ASSIGN_PROBES = [("x[0]=c", _assign_0), ("x[:,1:]=c", _assign_cols), ("x[mask]=c
 
 
 # ---------------------------------------------------------------- the search
-def _key(objs, models):
+def _key(objs, models, chain=()):
+    """product state: model rows + the model's alias relation to the base / the immediate parent + canonical implementation state"""
     x = objs[-1]
     scope = (objs[0],) + ((objs[-2],) if len(objs) > 2 else ())
-    return hash((repr(models[-1]), canon_ragged(x, scope)))
+    alias_base = bool(chain) and all(is_alias_op(op) for op in chain)
+    alias_parent = bool(chain) and is_alias_op(chain[-1])
+    return hash((repr(models[-1]), alias_base, alias_parent, canon_ragged(x, scope)))
 
 
 def run_shard(shard, tier, acc):
@@ -379,7 +382,7 @@ def _transition(acc, base, chain, seen, check=True):
         return "bad"
     objs.append(x2)
     models.append(m2)
-    k = _key(objs, models)
+    k = _key(objs, models, chain)
     if k in seen:
         return "seen"
     seen.add(k)
